@@ -178,3 +178,122 @@ def generate(repo=None, only=None):
 if __name__ == "__main__":
     t, d = generate()
     print(t)
+
+
+# =========================================================================================================
+# G4: scalar formulas.  Sub-expressions that are not arithmetic (np.sum(...), rankdata(...), ...) are opaque atoms;
+# each site lists the atoms it expects (by their exact source text) and the variable that stands for them.
+def tr_atoms(node, names, atoms):
+    txt = ast.unparse(node)
+    if txt in atoms:
+        return atoms[txt]
+    if isinstance(node, ast.Name):
+        if node.id not in names:
+            raise Unsupported(f"free name {node.id}")
+        return names[node.id]
+    if isinstance(node, ast.Constant) and isinstance(node.value, (int, float)) and not isinstance(node.value, bool):
+        return q_of_const(node.value)
+    if isinstance(node, ast.UnaryOp) and isinstance(node.op, ast.USub):
+        return f"(- {tr_atoms(node.operand, names, atoms)})"
+    if isinstance(node, ast.BinOp) and type(node.op) in (ast.Add, ast.Sub, ast.Mult, ast.Div):
+        op = {ast.Add: "+", ast.Sub: "-", ast.Mult: "*", ast.Div: "/"}[type(node.op)]
+        return f"({tr_atoms(node.left, names, atoms)} {op} {tr_atoms(node.right, names, atoms)})"
+    raise Unsupported("opaque sub-expression not listed for this site: " + txt[:100])
+
+
+def locate(fn, how):
+    kind = how[0]
+    hits = []
+    for n in ast.walk(fn):
+        if kind == "assign" and isinstance(n, ast.Assign) and len(n.targets) == 1 and ast.unparse(n.targets[0]) == how[1]:
+            hits.append(n.value)
+        elif kind == "return_elt0" and isinstance(n, ast.Return) and isinstance(n.value, ast.Tuple) and isinstance(n.value.elts[0], ast.BinOp):
+            hits.append(n.value.elts[0])
+        elif kind == "return" and isinstance(n, ast.Return) and isinstance(n.value, ast.BinOp):
+            hits.append(n.value)
+        elif kind == "dict_value" and isinstance(n, ast.Dict):
+            for k, v in zip(n.keys, n.values):
+                if isinstance(k, ast.Constant) and k.value == how[1]:
+                    hits.append(v)
+        elif kind == "tuple_assign" and isinstance(n, ast.Assign) and isinstance(n.targets[0], ast.Tuple) and [ast.unparse(t) for t in n.targets[0].elts] == how[1]:
+            hits.append(n.value.elts[how[2]])
+    want = how[-1] if isinstance(how[-1], int) and kind not in ("tuple_assign",) else None
+    if kind == "tuple_assign":
+        want = None
+    if not hits:
+        raise Unsupported(f"site {how} not found")
+    if want is None:
+        if len(hits) != 1:
+            raise Unsupported(f"site {how}: {len(hits)} candidates")
+        return hits[0]
+    return hits[want]
+
+
+FORMULAS = {
+    # property -> list of (name, module, function, locator, names, atoms, vars, model, premise)
+    "C01": [
+        ("k_sample_keep", "ksample", "k_sample", ("assign", "pvalue"), {"plus1": "c", "reps": "r"}, {"np.sum(dist >= observed_tst)": "H"}, "H c r", "mc_pvalue H c r", "~ r + c == 0"),
+        ("k_sample_hits", "ksample", "k_sample", ("return_elt0",), {"plus1": "c", "reps": "r", "hits": "H"}, {}, "H c r", "mc_pvalue H c r", "~ r + c == 0"),
+    ],
+    "C02": [
+        ("bivariate_keep", "ksample", "bivariate_k_sample", ("assign", "pvalue"), {"plus1": "c", "reps": "r"}, {"np.sum(dist >= observed_tst)": "H"}, "H c r", "mc_pvalue H c r", "~ r + c == 0"),
+        ("bivariate_hits", "ksample", "bivariate_k_sample", ("return_elt0",), {"plus1": "c", "reps": "r", "hits": "H"}, {}, "H c r", "mc_pvalue H c r", "~ r + c == 0"),
+    ],
+    "C18": [
+        ("simulate_ts_dist_pvalue", "irr", "simulate_ts_dist", ("dict_value", "pvalue"), {"plus1": "c", "num_perm": "r", "geq": "H"}, {}, "H c r", "mc_pvalue H c r", "~ r + c == 0"),
+    ],
+    "C07": [
+        ("npc_row_pvalues", "npc", "npc", ("assign", "pvalues_from_distr[:, j]"), {"plus1": "c", "B": "B"}, {"rankdata(distr[:, j], method='min')": "Rk"}, "B Rk c", "npc_row B Rk c", "~ c + B == 0"),
+        ("npc_final_count", "npc", "npc", ("return",), {"plus1": "c", "B": "B"}, {"np.sum(combined_stat_distr >= observed_combined_stat)": "hits"}, "c hits B", "npc_final c hits B", "~ c + B == 0"),
+        ("sim_npc_partial", "npc", "sim_npc", ("assign", "ps[c]"), {"reps": "r"}, {"np.sum(np.array(tv[c]) >= ts[c])": "H"}, "H r", "mc_pvalue H 1 r", "~ r + 1 == 0"),
+    ],
+    "C15": [
+        ("sprt_A", "sprt", "sprt", ("tuple_assign", ["A", "B"], 0), {"alpha": "alpha", "beta": "beta"}, {}, "alpha beta", "wald_A alpha beta", "~ 1 - alpha == 0"),
+        ("sprt_B", "sprt", "sprt", ("tuple_assign", ["A", "B"], 1), {"alpha": "alpha", "beta": "beta"}, {}, "alpha beta", "wald_B alpha beta", "~ alpha == 0"),
+    ],
+    "C12": [("binom_ci_level_split", "utils", "binom_conf_interval", ("assign", "cl"), {"cl": "cl"}, {}, "cl", "split_level cl", None)],
+    "C13": [("hypergeom_ci_level_split", "utils", "hypergeom_conf_interval", ("assign", "cl"), {"cl": "cl"}, {}, "cl", "split_level cl", None)],
+}
+
+
+def generate_formulas(prop, repo=None):
+    repo = repo or os.environ.get("VERIF_REPO", "/repo")
+    lines = ["From PV Require Import Lib.Base Lib.TailTables.", "From Coq Require Import Lqa.", "Open Scope Q_scope.", ""]
+    detail = []
+    for (name, mod, fname, how, names, atoms, vars_, model, premise) in FORMULAS[prop]:
+        src = open(os.path.join(repo, "permute", mod + ".py")).read()
+        fn = find_function(ast.parse(src), fname)
+        expr = locate(fn, how)
+        body = tr_atoms(expr, names, atoms)
+        lines.append(f"Definition src_{name} ({vars_} : Q) : Q := {body}.")
+        prem = f"{premise} -> " if premise else ""
+        lines.append(f"Theorem G4_{name} : forall {vars_} : Q, {prem}src_{name} {vars_} == {model}.")
+        lines.append(f"Proof. unfold src_{name}. formula_tac. Qed.")
+        lines.append("")
+        detail.append({"site": f"{mod}.{fname}", "formula": ast.unparse(expr)})
+    return "\n".join(lines), detail
+
+
+G3_SITES = {
+    "C05": [("core", "two_sample_core"), ("core", "one_sample"), ("core", "corr"), ("stratified", "sim_corr"),
+            ("stratified", "stratified_permutationtest"), ("stratified", "stratified_two_sample")],
+    "C14": [("utils", "hypergeometric"), ("utils", "binomial_p")],
+}
+
+
+def obligations(prop):
+    """all source-derived formula obligations of one property, as the list the orchestrator compiles"""
+    out = []
+    def wrap(tag, gen, cls):
+        try:
+            text, detail = gen()
+        except Exception as e:      # fail closed
+            text = ("(* translator could not read the source: " + repr(e)[:300].replace("*)", "* )") + " *)\n"
+                    "Theorem source_translated : False.\nProof. Qed.\n")
+            detail = [{"error": repr(e)[:300]}]
+        out.append({"name": tag, "file": tag + ".v", "text": text, "detail": detail, "cls": cls})
+    if prop in G3_SITES:
+        wrap(f"{prop}_G3_tables", lambda: generate(only=G3_SITES[prop]), "source:pvalue-table")
+    if prop in FORMULAS:
+        wrap(f"{prop}_G4_formulas", lambda: generate_formulas(prop), "source:formula")
+    return out
